@@ -22,7 +22,7 @@ for fmt in ["spice", "spectre", "verilog"]:
 outs = {}
 for seed in range(12):
     env = dict(os.environ, PYTHONHASHSEED=str(seed))
-    r = subprocess.run([sys.executable, "-c", CHILD], env=env, capture_output=True, text=True, cwd="/tmp/s2_C12")
+    r = subprocess.run([sys.executable, "-c", CHILD], env=env, capture_output=True, text=True, cwd="/repo")
     if r.returncode: print(r.stderr[-2000:]); sys.exit(2)
     outs.setdefault(hashlib.md5(r.stdout.encode()).hexdigest(), []).append(seed)
 print(outs)
